@@ -386,6 +386,7 @@ pub fn baseline(seed: u64, opts: &GenOpts) -> (SupplyTrace, Plan) {
         mem_sigdup: vec![],
         in_place: false,
         read_eio: None,
+        alt_dir_on_odd_reps: false,
     };
     (t, Plan { owners, funcs, outsiders, now: now.min(exp) })
 }
